@@ -51,6 +51,12 @@ def acls(tier):
     add("two-tops", lambda: [ARule("a *", [ARule("c")]), ARule("b ~")])
     add("depth3", lambda: [ARule("a *", [ARule("c *", [ARule("d *")])])])
     add("depth3-global-mid", lambda: [ARule("a *", [ARule("c *", [ARule("~", glob=True)])])])
+    # several rules match one row: a specific local rule, a specific %global rule and a local catch-all; the children
+    # of ALL matching local rules apply (the specific local rule shares most symbols with the row, so it governs)
+    add("overlap-local-global-local", lambda: [ARule("a *", [ARule("c 1 ~", [ARule("d")]), ARule("c *", glob=True),
+                                                              ARule("~", [ARule("e")])])])
+    add("overlap-local-local", lambda: [ARule("a *", [ARule("c 1 ~", [ARule("d")]), ARule("~", [ARule("e")])])])
+    add("overlap-top", lambda: [ARule("c 1 ~", [ARule("d")]), ARule("c *", glob=True), ARule("~", [ARule("e"), ARule("d")])])
     if tier == "thorough":
         for i, (mk1, mk2) in enumerate(itertools.product(leafs(["a"]), leafs(["b"], with_global=False))):
             add("L2-%d" % i, lambda mk1=mk1, mk2=mk2: [mk1(), mk2()])
